@@ -40,7 +40,8 @@ type concWorld struct {
 	elock  *tssfakes.BlockingLock
 	flock  *tssfakes.BlockingLock
 	mu     sync.Mutex
-	answer map[string]bool // session id -> the other relayers answer its initiate messages
+	answer map[string]bool   // session id -> the other relayers answer its initiate messages
+	sids   map[string]string // session tag -> session id (set by drive)
 }
 
 func (w *concWorld) views(tag string) (ecdsaStore, frostStore) {
@@ -89,6 +90,12 @@ func (w *concWorld) drive(tag string, s Sess, ctx context.Context, holder bool) 
 	c := tss.NewCoordinator(p.host, p.comm, ef)
 	c.CoordinatorTimeout, c.TssTimeout, c.InitiatePeriod = long, long, long
 	sid, coordinator := pickSid(s.Kind, s.Role)
+	w.mu.Lock()
+	if w.sids == nil {
+		w.sids = map[string]string{}
+	}
+	w.sids[tag] = sid
+	w.mu.Unlock()
 	threshold := 1
 	note := ""
 	answer := true
@@ -254,7 +261,20 @@ func runContention(c Case) Obs {
 		go func() { ctl.done <- w.drive(strconv.Itoa(i), s, ctx, i == 0) }()
 	}
 	start(0, hs)
-	if !tssfakes.WaitP("the holder to take the lock", lock.Held) {
+	// the holder's session never starts: whatever lock it holds it took in its constructor, i.e. before
+	// its Execute subscribed.  A process kind that asks for the lock only once it runs (as the ECDSA
+	// keygen does) holds nothing here - that is an observation, not a wait that ran out.
+	holderWaits := func() bool {
+		w.mu.Lock()
+		hsid, ok := w.sids["0"]
+		w.mu.Unlock()
+		if !ok {
+			return false
+		}
+		return p.comm.Subscribers(hsid, comm.TssFailMsg) >= 1 &&
+			(p.comm.Subscribers(hsid, comm.TssStartMsg) >= 1 || p.comm.Subscribers(hsid, comm.TssReadyMsg) >= 1)
+	}
+	if !tssfakes.WaitP("the holder to take the lock or to wait for its session to start", func() bool { return lock.Held() || holderWaits() }) || !lock.Held() {
 		o.Note += "the holder did not take the lock; "
 	}
 	settle(p.led, 40*time.Millisecond)
